@@ -216,12 +216,12 @@ pub struct ArrayValue {
 impl ArrayValue {
     fn slice(&mut self, left: Option<usize>, right: Option<usize>) {
         if let Some(items) = self.items.as_mut() {
-            if let Some(left) = left {
-                items.drain(..left);
-            }
+            // bounds that lie outside the array are clamped to it
+            let left = left.unwrap_or_default().min(items.len());
+            items.drain(..left);
 
             if let Some(right) = right {
-                let remove_range = right - left.unwrap_or_default()..;
+                let remove_range = right.saturating_sub(left)..;
                 if remove_range.start < items.len() {
                     items.drain(remove_range);
                 };
@@ -302,14 +302,22 @@ impl PointerValue {
     pub fn slice(&self, pcx: &ParseContext, left: Option<usize>, right: usize) -> Option<Value> {
         let target_type = self.target_type?;
         let deref_size = pcx.type_graph.type_size_in_bytes(pcx.evcx, target_type)? as usize;
+        if deref_size == 0 {
+            // elements of a zero-sized type occupy no memory, there is nothing to slice
+            return None;
+        }
 
         self.value.and_then(|ptr| {
             let left = left.unwrap_or_default();
-            let base_addr = ptr as usize + deref_size * left;
+            // bounds come from user input: no result if the range does not fit the address space
+            let base_addr = deref_size
+                .checked_mul(left)
+                .and_then(|offset| (ptr as usize).checked_add(offset))?;
+            let read_size = deref_size.checked_mul(right.saturating_sub(left))?;
             let raw_data = weak_error!(debugger::read_memory_by_pid(
                 pcx.evcx.ecx.pid_on_focus(),
                 base_addr,
-                deref_size * (right - left)
+                read_size
             ))?;
             let raw_data = bytes::Bytes::from(raw_data);
 
